@@ -168,7 +168,7 @@ def run(ctx):
     reqs, metas = [], []
     base = ctx.seed * 100000 + 30000
     for i in range(n):
-        obs = cg.run_set(base + i, wild=(i % 3 == 0), size=10 + (i % 6))
+        obs = cg.run_set(base + i, wild=(i % 3 == 0), size=10 + (i % 6), pysnmp_safe=(i % 4 != 1))
         kinds = [d['kind'] for m in obs['gen'].modules.values() for d in m['decls']]
         nt = [t.get('nodetype') for t in obs['gen'].truth.values()]
         res.case(tuple(sorted(obs['texts'].items())), 'table' in nt or 'notificationType' in kinds or 'objectGroup' in kinds)
